@@ -1,6 +1,8 @@
 import Props.C20
 import Props.C20b
 import Props.C20c
+import Props.C20d
+import Props.C20e
 #print axioms C20.default_enables_fastmath
 #print axioms C20.no_default_disables_fastmath
 #print axioms C20.explicit_fastmath
@@ -8,3 +10,5 @@ import Props.C20c
 #print axioms C20.nofast_is_libm
 #print axioms C20.power_law_nofast
 #print axioms C20.nofast_accuracy
+#print axioms C20.builds_agree
+#print axioms C20.nofast_roundtrip
